@@ -474,6 +474,19 @@ func (n *NSQD) Exit() {
 	n.logf(LOG_INFO, "NSQ: stopping subsystems")
 	close(n.exitChan)
 	n.waitGroup.Wait()
+
+	// a publish or subscribe that was still being served may have created a topic
+	// after the topics were closed above. Close it as well: a queue data file left
+	// behind without its metadata is picked up by the next topic of that name in
+	// the next process and makes its disk queue skip ("data loss") messages
+	n.Lock()
+	for _, topic := range n.topicMap {
+		if !topic.Exiting() {
+			topic.Close()
+		}
+	}
+	n.Unlock()
+
 	n.dl.Unlock()
 	n.logf(LOG_INFO, "NSQ: bye")
 	n.ctxCancel()
